@@ -23,6 +23,7 @@ HARNESS = {"h_remove": hc.h_remove}
 REMOVAL_QUERIES = (
     [("time", OP, SYM), ("time_test", "ge", SYM), ("tag", "k", OP, SYM), ("tag_exists", "k"), ("tag_re", "k", "matches", "a|", 0), ("field", "f", OP, SYM), ("field_exists", "f"), ("meas", OP, SYM), ("noop", "tag"), ("field_map", "f", "f_neg", "<", SYM)]
     + [("not", A), ("not", B), ("not", C), ("not", D), ("and", A, B), ("or", A, B), ("and", ("not", C), B), ("or", ("not", D), M), ("and", A, ("or", B, C))]
+    + [("and", B, ("not", C)), ("or", M, ("not", D)), ("and", B, ("field_map", "f", "f_neg", "<", SYM)), ("and", ("tag_exists", "k"), ("noop", "field"))]
 )
 
 
